@@ -13,7 +13,7 @@ structure DS where
   files : List Bytes := []     -- newest first
 
 def engineKind (k : String) : Bool :=
-  k == "v3" || k == "v3app" || k == "v3open" || k == "v2" || k == "v2app" || k == "v2resv"
+  k == "v3" || k == "v3app" || k == "v3open" || k == "v2" || k == "v2app" || k == "v2resv" || k == "v3cmp" || k == "v2cmp"
 
 def insertSorted (x : Bytes) : List Bytes → List Bytes
   | [] => [x]
